@@ -9,3 +9,4 @@ INVARIANT ListOK
 INVARIANT SelectOK
 INVARIANT ScaleOK
 INVARIANT WeightOK
+INVARIANT Drift_Refusal
